@@ -545,3 +545,18 @@ func (e errMissingTypes) updateGraph(g *dot.Graph) {
 type errVisualizer interface {
 	updateGraph(*dot.Graph)
 }
+
+// describeValue renders a value that was passed where a function was
+// expected, for an error message. Only scalars are printed as they are: fmt
+// follows slices, maps, pointers and interfaces without looking for cycles,
+// so a value that contains itself would never finish printing.
+func describeValue(v interface{}) string {
+	switch reflect.ValueOf(v).Kind() {
+	case reflect.Bool, reflect.String,
+		reflect.Int, reflect.Int8, reflect.Int16, reflect.Int32, reflect.Int64,
+		reflect.Uint, reflect.Uint8, reflect.Uint16, reflect.Uint32, reflect.Uint64, reflect.Uintptr,
+		reflect.Float32, reflect.Float64, reflect.Complex64, reflect.Complex128:
+		return fmt.Sprint(v)
+	}
+	return "a value"
+}
